@@ -57,10 +57,12 @@ PROFILES = {
     # at two levels), with behaviours that submit events
     "mix":   {"completion": True, "defer": True, "history": True, "blocking": True, "pseudo": True, "plans": True,
               "p_sub": 0.5, "max_depth": 2, "max_regions": 2},
-    # C14: everything every front-end can write (no Defer functor action); Kleene / base-class triggers, completion rows,
-    # explicit entry / fork / entry and exit points, history, state-local and machine-level internal tables
-    "frontend": {"pseudo": True, "history": True, "completion": True, "p_sub": 0.45, "max_depth": 2, "kleene": True,
-                 "base_events": True, "nevents": 5, "p_state_irows": 0.5, "p_sm_irows": 0.4, "p_internal_in_table": 0.25},
+    # C14: what every front-end can write (no Defer functor action): completion rows, explicit entry / fork / entry and exit
+    # points, history, state-local and machine-level internal tables.  Kleene / base-class triggers are exercised by the
+    # profile `events` (C18) only: where the library decides by the static type a base-class or Kleene row hands on
+    # (history lists, exit-point conversion), the model's one-type events are not faithful
+    "frontend": {"pseudo": True, "history": True, "completion": True, "p_sub": 0.45, "max_depth": 2,
+                 "nevents": 5, "p_state_irows": 0.5, "p_sm_irows": 0.4, "p_internal_in_table": 0.25},
 }
 
 class Gen:
@@ -181,7 +183,10 @@ class Gen:
                         st["defers"] = rng.sample(cand, 1)
         pseudo = {"explicit": [], "entrypts": [], "exitpts": []}
         if f["pseudo"] and depth > 0:
-            base_events = [e for e in self.events]      # exit-point events need a converting constructor: all generated events have one
+            # exit-point events need a converting constructor: all generated events have one.  An event type that is a base
+            # class of another is not used: back hands the entering derived event to the connected transition by
+            # reference (its behaviours see the derived object), backmp11 converts it - not modelled
+            base_events = [e for e in self.events if not (f["base_events"] and e == self.events[0])]
             for z, members in enumerate(zones):
                 simple = [s for s in members if states[s]["sub"] is None and states[s]["kind"] == "simple"]
                 if simple and rng.random() < 0.6:
@@ -207,7 +212,10 @@ class Gen:
                     pseudo["exitpts"].append((p, ex))
         hist = "none"
         if f["history"] and depth > 0:
-            hist = rng.choice(["none", "always", ["shallow"] + rng.sample(self.events, rng.randint(1, 2))])
+            # a base-class row hands the event on as its base type, and ShallowHistory<Events> tests that static type; the
+            # model's events carry one type: base classes are kept out of the history lists
+            hevs = [e for e in self.events if not (f["base_events"] and e == self.events[0])]
+            hist = rng.choice(["none", "always", ["shallow"] + rng.sample(hevs, rng.randint(1, 2))])
         # rows of this machine that use the pseudo states of its submachines
         for i, st in enumerate(states):
             sub = st["sub"]
